@@ -189,6 +189,8 @@ def run(res):
     i['partner'] = None
     i['decoy'] = False
     i['perturb_after'] = False
+    if i['extra_elig_row'] not in (False, 'optional'):
+      i['extra_elig_row'] = False
     if k % 2 == 0:       # budget bounds placed at quantiles of the designs' own required budgets
       i['want_budget'] = True
       i['budget_mode'] = ['low_half', 'middle', 'high'][(k // 2) % 3]
